@@ -11,6 +11,9 @@ ALPHA = ["", "a", "A", "b", "ab", "AB", "aB", "abc", "ABC", "abcd", "bc", "BC", 
          # only A-Z / a-z may be folded
          "@", "`", "[", "{", "a[b", "a{b", "]", "}", "^", "~", "_", "\x7f"]
 LONGER = "abcdefghijklmnopqrstuvwxyz/abcdefghijklmnopqrstuvwxyz"
+# strings around 256 bytes (a copy routine with a fixed-size idea of "string" shows here): a path of 255, operands of 255 / 256 / 300
+PATH255 = "l/" + "q" * 253
+OPS_LONG = [PATH255, PATH255 + "x", "Q" * 256, PATH255[1:] + "qq", "l/" + "q" * 298]
 
 
 def chunks(l, n):
@@ -29,6 +32,8 @@ def rules(case, res):
         if q.transport == "ws":
             S.handshake(q)
         paths = list(ALPHA)
+        if S.max_msg >= 512:
+            paths.append(PATH255)
         if mode != "single":
             rng.shuffle(paths)
             paths = paths[:rng.randrange(8, len(paths))]
@@ -38,7 +43,7 @@ def rules(case, res):
                 pr["value"] = i
             S.request(own, "add", pr)
         S.settle()
-        ops = ALPHA + [LONGER]
+        ops = ALPHA + [LONGER] + (OPS_LONG if S.max_msg >= 512 else [])
         rules_ = []
         if mode == "single":
             part, nparts = prm.get("part", 0), prm.get("nparts", 1)
